@@ -226,7 +226,7 @@ def py_matches(info, kws, rule, toks):
         elif a[0] == 'lab':
             if t[0] != 'w':
                 return None
-            ops.append(('l', typ(t[1]) if typ(t[1]) is not None else t[1]))
+            ops.append(('l', typ(t[1]) if (typ(t[1]) is not None and info.kwlabel_lower) else t[1]))
             toks.pop(0)
         else:
             return None
